@@ -273,7 +273,7 @@ def check_property(prop, tier, seed, rebaseline=False):
     def one(t):
         try:
             return vrun.run_template(t, open_f.keys(), seed=(seed if tier == 'thorough' and seed else None),
-                                     rlimit=(40 if tier == 'thorough' else None), tag='__' + prop)
+                                     rlimit=(120 if tier == 'thorough' else 30), tag='__' + prop)
         except LostAnchor as e:
             return ('lost', t, str(e))
         except Exception as e:   # noqa
